@@ -462,6 +462,15 @@ class Interp:
                     return self.ext_modules[full]
                 return Opaque(full)
             return Opaque(dotted + "." + attr)
+        for modname, level in mod.star_imports:
+            if modname == "pyvc.api" and level == 0:
+                continue
+            target = self.src.load(self.src.resolve_relative(mod, modname, level))
+            if target is not None:
+                try:
+                    return self.module_global(target, name)
+                except KeyError:
+                    continue
         raise KeyError(name)
 
     def import_module(self, dotted):
